@@ -13,8 +13,9 @@ EXTENDS EpSpec, TLC, Json, IOUtils
 
 Events == ndJsonDeserialize(IOEnv.TRACE)
 KnownKeys == ndJsonDeserialize(IOEnv.KNOWN)
-EpKnown(e) == LET k == EpKnownKey(e) IN
-              IF k # "" /\ \E j \in 1..Len(KnownKeys) : KnownKeys[j].key = k THEN k ELSE ""
+Listed(k) == k # "" /\ \E j \in 1..Len(KnownKeys) : KnownKeys[j].key = k
+EpKnown(e) == IF Listed(EpKnownKey(e)) THEN EpKnownKey(e)
+              ELSE IF Listed(EpKnownKeyAlt(e)) THEN EpKnownKeyAlt(e) ELSE ""
 VARIABLE l
 
 Init == l = 1
